@@ -5,6 +5,8 @@ package main
 // call can be made to fail (error or short write).  Used by C11 (contract) and C15 (faults).
 
 import (
+	"io"
+	"syscall"
 	"errors"
 	"os"
 	"time"
@@ -40,6 +42,13 @@ func (r *recFs) hit(c fsCall) (int, bool) {
 }
 func (r *recFs) fail(i int) error {
 	r.calls[i].Err = errInjected.Error()
+	switch r.kind {
+	case "eintr":
+		// an interrupted system call: a failure like any other as far as the caller of the library is concerned
+		return &os.PathError{Op: r.calls[i].Op, Path: r.calls[i].Path, Err: syscall.EINTR}
+	case "eagain":
+		return &os.PathError{Op: r.calls[i].Op, Path: r.calls[i].Path, Err: syscall.EAGAIN}
+	}
 	return errInjected
 }
 func (r *recFs) seterr(i int, err error) {
@@ -189,6 +198,11 @@ func (f *recFile) Read(p []byte) (int, error) {
 			return n, errInjected
 		}
 		return n, nil
+	}
+	if flt && f.r.kind == "eof0" {
+		// the file ends although stat promised more: no bytes and io.EOF
+		f.r.calls[i].N, f.r.calls[i].Err = 0, "eof0"
+		return 0, io.EOF
 	}
 	if flt {
 		return 0, f.r.fail(i)
